@@ -271,6 +271,11 @@ def step (s : Sys) (line : String) : IO Sys := do
     match numOf name with
     | none => skip
     | some n =>
+      -- a type that is registered already keeps its ID (`ComponentID` looks it up; nothing is registered,
+      -- also on a locked world)
+      match AL.find? s.comps n with
+      | some id => emitResult s s!"ok {id}"
+      | none =>
       let sz := size.toNat?.getD 8
       let k : CompKind := { isRel := kind == "rel", zst := sz == 0, size := sz }
       let (s, r) := s.run (registerComponent k)
